@@ -56,7 +56,7 @@ func c03Gen(g *core.Gen) {
 		cfg := lc
 		for f := range cfg.Sizes {
 			for _, d := range []scen.Dmg{{Op: "none"}, {Op: "del", F: f}, {Op: "ins", F: f, At: 0, N: 1}, {Op: "cut", F: f, At: 0, N: cfg.Slice}, {Op: "app", F: f, N: 3}, {Op: "ovw", F: f, At: 1}} {
-				g.Emit(&p2Case{Cfg: cfg, Dmg: []scen.Dmg{d}, G: 2})
+				g.Emit(&p2Case{Cfg: cfg, Dmg: []scen.Dmg{d}, G: 2, DiskTwin: true})
 			}
 		}
 	}
